@@ -97,10 +97,11 @@ def _inlinable(prog, f, call, stack, keep=(), allow_loops=False):
             return None      # only straight-line glue is inlined: loops are algorithms with their own rules
         if isinstance(x, (ast.ListComp, ast.DictComp, ast.SetComp, ast.GeneratorExp)):
             # a comprehension is carried along when its variables cannot be confused with the helper's names
+            # (a parameter is replaced by the caller's expression, which must not happen to a comprehension variable of the
+            # same name; a local of the helper is renamed consistently everywhere, comprehension variables included, which
+            # keeps both variables what they were)
             own = {y.id for g_ in x.generators for y in ast.walk(g_.target) if isinstance(y, ast.Name)}
-            if own & (set(h.params) | set(h.kwonly) | {y.id for s_ in root.body for y in ast.walk(s_)
-                                                       if isinstance(y, ast.Name) and isinstance(y.ctx, ast.Store) and
-                                                       not any(y is z for g_ in x.generators for z in ast.walk(g_.target))}):
+            if own & (set(h.params) | set(h.kwonly)):
                 return None
         if isinstance(x, ast.FunctionDef) and x is not root:
             return None
